@@ -351,14 +351,22 @@ def covs_of(v, K, d, what):
 
 
 def split_rule(w, D):
-    """n_gaussian = a * n // b"""
+    """n_gaussian = a * n // b   (also n * a // b, n // b)"""
     s = w.next("n_gaussian = <a> * n // <b>")
-    ok = (isinstance(s, ast.Assign) and ast.unparse(s.targets[0]) == "n_gaussian" and isinstance(s.value, ast.BinOp)
-          and isinstance(s.value.op, ast.FloorDiv) and isinstance(s.value.left, ast.BinOp) and isinstance(s.value.left.op, ast.Mult)
-          and isinstance(s.value.left.right, ast.Name) and s.value.left.right.id == "n")
-    if not ok:
+    ok = (isinstance(s, ast.Assign) and len(s.targets) == 1 and ast.unparse(s.targets[0]) == "n_gaussian"
+          and isinstance(s.value, ast.BinOp) and isinstance(s.value.op, ast.FloorDiv))
+    num = s.value.left if ok else None
+    a = None
+    if ok and isinstance(num, ast.Name) and num.id == "n":
+        a = 1
+    elif ok and isinstance(num, ast.BinOp) and isinstance(num.op, ast.Mult):
+        if isinstance(num.right, ast.Name) and num.right.id == "n":
+            a = as_int(num.left, 0, 64)
+        elif isinstance(num.left, ast.Name) and num.left.id == "n":
+            a = as_int(num.right, 0, 64)
+    if a is None:
         fail("gstm: the Gaussian share is not of the form `<a> * n // <b>`: " + ast.unparse(s)[:80], s)
-    D["gstm_split_num"] = as_int(s.value.left.left, 0, 64)
+    D["gstm_split_num"] = a
     D["gstm_split_den"] = as_int(s.value.right, 1, 64)
 
 
